@@ -18,7 +18,9 @@ static std::string pick_host(Rng& r) {
     int k = (int)r.below(100);
     if (k < 62) return r.pick(kHosts);
     static const int oct[] = {0, 1, 9, 10, 19, 20, 99, 100, 101, 109, 110, 199, 200, 249, 250, 255};
-    auto ip4 = [&]() { std::string t; for (int i = 0; i < 4; i++) { if (i) t += "."; t += std::to_string(oct[r.below(16)]); } return t; };
+    static const char* bad_oct[] = {"256", "259", "260", "265", "299", "300", "999", "00", "010", "1000", "+4", "-0", "2 "};
+    // one octet in ten is just outside the legal range (then the host is a registered name, or a syntax error)
+    auto ip4 = [&]() { std::string t; for (int i = 0; i < 4; i++) { if (i) t += "."; if (r.chance(40)) t += bad_oct[r.below(13)]; else t += std::to_string(oct[r.below(16)]); } return t; };
     if (k < 80) return ip4();
     static const char* grp[] = {"0", "1", "a", "F", "10", "ab", "100", "aBc", "1000", "ffff", "FFFF", "dB8", "0000", "01"};
     std::string t = "[";
